@@ -48,6 +48,23 @@ func applyTrailers(expr ast.Expr, trailers []ast.Expr) ast.Expr {
 
 // Set the context for expr
 func setCtx(yylex yyLexer, expr ast.Expr, ctx ast.ExprContext) {
+	// Check the items of tuples, lists and starred expressions one by one so that
+	// an item which can't be a target is a SyntaxError rather than a failed type
+	// assertion in their SetCtx methods
+	switch x := expr.(type) {
+	case *ast.Tuple:
+		x.Ctx = ctx
+		setCtxs(yylex, x.Elts, ctx)
+		return
+	case *ast.List:
+		x.Ctx = ctx
+		setCtxs(yylex, x.Elts, ctx)
+		return
+	case *ast.Starred:
+		x.Ctx = ctx
+		setCtx(yylex, x.Value, ctx)
+		return
+	}
 	setctxer, ok := expr.(ast.SetCtxer)
 	if !ok {
 		expr_name := ""
